@@ -441,7 +441,7 @@ def correspondence(rng, tier):
         S = make_space(rng, rng.choice(SPACE_KINDS))
         depth = rng.choice([2, 2, 3] if quick else [2, 3, 3, 4])
         _add(cs, rng, S, gen_tree(rng, S, depth, vs), vs)
-    return [cs, sepsum_cases(rng, tier, vs)]
+    return [cs, sepsum_cases(rng, tier, vs), moreau_cases(rng, tier)]
 
 
 def sepsum_cases(rng, tier, vs):
@@ -467,6 +467,29 @@ def sepsum_cases(rng, tier, vs):
                    C.qs(g1), C.qs(g2), C.q(dv), ilip(f.grad_lipschitz), C.b(bool(f.is_linear))))
         cs.add(term, {'spaces': [S1.kind, S2.kind], 'f1': f1.desc, 'f2': f2.desc, 'x': [x1, x2], 'd': [d1, d2]},
                (S1.kind, S2.kind, repr(f1.desc), repr(f2.desc), tuple(x1), tuple(x2)))
+    return cs
+
+
+def moreau_cases(rng, tier):
+    """MoreauEnvelope(L2NormSquared | L1Norm, sigma): gradient, derivative, constants"""
+    import odl
+    cs = C.CaseSet('moreau', ['Base.Vec', 'C09.Model', 'C09.Corr'], 'check3', 'case3')
+    for kind in SPACE_KINDS:
+        for which in ('l2sq', 'l1'):
+            for _ in range(1 if tier == 'quick' else 6):
+                S = make_space(rng, kind)
+                sigma = rng.choice([0.5, 1.0, 2.0, 0.25, 1.5])
+                base = odl.solvers.L2NormSquared(S.sp) if which == 'l2sq' else odl.solvers.L1Norm(S.sp)
+                f = odl.solvers.MoreauEnvelope(base, sigma)
+                x, d = vec(rng, S), vec(rng, S)
+                xe, de = S.elem(x), S.elem(d)
+                g = S.flat(f.gradient(xe))
+                dv = float(f.derivative(xe)(de))
+                term = ('(mkCase3 %s (%s %s %s) %s %s %s %s %s %s)'
+                        % (S.wq, 'Lmoreau_l2sq' if which == 'l2sq' else 'Lmoreau_l1', S.wq, C.q(sigma),
+                           C.qs(x), C.qs(d), C.qs(g), C.q(dv), ilip(f.grad_lipschitz), C.b(bool(f.is_linear))))
+                cs.add(term, {'space': S.kind, 'functional': which, 'sigma': sigma, 'x': x, 'd': d},
+                       (S.kind, which, sigma, tuple(x), tuple(d)))
     return cs
 
 
